@@ -101,6 +101,7 @@ macro_rules! case {
 }
 
 /// Common imports for property modules.
+#[allow(unused_imports)]
 pub mod prelude {
     pub use crate::conv::*;
     pub use crate::ctx::{Case, Ctx, call};
